@@ -50,7 +50,59 @@ def env_in_domain(D, env):
         return False
 
 
+def work_sweep(item):
+    """every small graph the REAL is_valid accepts must step on both engines (the premise is taken from the code, not from the spec)."""
+    import itertools
+    import sym_metanet as M
+    from sym_metanet.engines.numpy import Engine as NE
+    from sym_metanet.engines.casadi import Engine as CE
+
+    _, n, okind, dflag, selfloops = item
+    out = {"item": f"sweep n={n} {okind} {dflag}", "n_queries": 0, "nontrivial": 0, "levels": {}, "samples": [], "violations": [], "inconclusive": [],
+           "paths": 0, "encodings": 0, "validated": 0, "extra": {"sweep_graphs": 0, "sweep_accepted": 0}}
+    pairs = [(u, v) for u in range(n) for v in range(n) if selfloops or u != v]
+    for mask in range(1, 1 << len(pairs)):
+        edges = [p for k, p in enumerate(pairs) if mask >> k & 1]
+        out["extra"]["sweep_graphs"] += 1
+        nodes = [M.Node(name=f"N{i}") for i in range(n)]
+        net = M.Network(name="sweep")
+        for nd in nodes:
+            net.add_node(nd)
+        for j, (u, v) in enumerate(edges):
+            lk = M.LinkWithVsl(1 + j % 3, 2, 1.0, 180, 30, 100, 1.8, 0.5 + 0.25 * j, segments_with_vsl={0}, alpha=0.1, name=f"L{u}{v}") if j % 4 == 3 else \
+                M.Link(1 + j % 3, 1 + j % 2, 1.0, 180, 30, 100, 1.8, 0.5 + 0.25 * j, name=f"L{u}{v}")
+            net.add_link(nodes[u], lk, nodes[v])
+        for i in range(n):
+            if okind[i] == 1:
+                net.add_origin(M.Origin(name=f"O{i}") if i % 2 == 0 else M.MainstreamOrigin(name=f"O{i}"), nodes[i])
+            elif okind[i] == 2:
+                net.add_origin(M.MeteredOnRamp(2000, name=f"O{i}") if i % 2 == 0 else M.SimplifiedMeteredOnRamp(2000, name=f"O{i}"), nodes[i])
+            if dflag[i]:
+                net.add_destination(M.Destination(name=f"D{i}") if i % 2 == 0 else M.CongestedDestination(name=f"D{i}"), nodes[i])
+        try:
+            ok, _ = net.is_valid()
+        except Exception as e:  # noqa
+            ok = False
+        if not ok:
+            continue
+        out["extra"]["sweep_accepted"] += 1
+        kw = dict(T=10 / 3600, tau=18 / 3600, eta=60, kappa=40, delta=0.0122, phi=1.5)
+        for nm, eng in (("numpy", NE("rand")), ("SX", CE("SX"))):
+            try:
+                with np.errstate(all="ignore"):
+                    net.step(engine=eng, **kw)
+            except Exception as e:  # noqa
+                edesc = [f"N{u}->N{v}" for u, v in edges]
+                out["violations"].append({"key": f"sweep:{nm}:{edesc}:{okind}:{dflag}", "group": f"sweep:{type(e).__name__}",
+                                          "what": f"validation accepts the network edges={edesc} origin kinds={okind} destinations={dflag} but stepping it with {nm} raises {type(e).__name__}: {str(e)[:150]}",
+                                          "replay": {"property": PID, "kind": "sweep", "n": n, "edges": edges, "okind": list(okind), "dflag": list(dflag), "selfloops": selfloops}})
+                break
+    return out
+
+
 def work(item):
+    if item[0] == "sweep":
+        return work_sweep(item)
     tj, style, bits, seed, timeout_ms, do_casadi = item
     topo = T_.Topo.from_json(tj)
     flags = runs.flags_of(bits)
@@ -238,6 +290,12 @@ def replay_finite(topo, eng, style, flags, env, key, i, numeric=None, verbose=Fa
 
 
 def replay(rec):
+    if rec["kind"] == "sweep":
+        r = work_sweep(("sweep", rec["n"], tuple(rec["okind"]), tuple(rec["dflag"]), rec["selfloops"]))
+        want = sorted(map(list, rec["edges"]))
+        hits = [v for v in r["violations"] if sorted(map(list, v["replay"]["edges"])) == want]
+        print(hits[0]["what"] if hits else "steps fine")
+        return 1 if hits else 0
     if rec["kind"] == "exec":
         topo = T_.Topo.from_json(rec["topo"])
         if rec.get("env") and rec["encoding"].startswith("numpy"):
@@ -271,7 +329,13 @@ def main():
             items.append((t.to_json(), ("array", "scalar")[k % 2], FLAGSETS_FULL[k % len(FLAGSETS_FULL)], args.seed + k, timeout, True))
     if args.only:
         items = [it for it in items if args.only in it[0]["name"]]
-    results = harness.pmap(work, items, args.serial)
+    import itertools
+    if not args.only:
+        for n in (1, 2, 3):
+            for okind in itertools.product((0, 1, 2), repeat=n):
+                for dflag in itertools.product((False, True), repeat=n):
+                    items.append(("sweep", n, okind, dflag, n <= 2 or args.thorough))
+    results = harness.pmap(work, items, args.serial, chunksize=2)
     viol, inc, tot, levels, samples, st, extra = netcheck.summarize(results)
     cov = netcheck.base_coverage(
         tot, levels, samples, st, len(items),
@@ -282,6 +346,8 @@ def main():
                     "domain": "parameters > 0, rho_max > rho_crit, 1+alpha > 0; states/controls/disturbances >= 0 INCLUDING exact zeros; the model's own 0/0 points excluded"},
          "finiteness_conditions": extra.get("finiteness_conditions", 0), "casadi_compilations": extra.get("compilations", 0),
          "plain_concrete_runs": extra.get("concrete_runs", 0),
+         "acceptance_sweep": {"graphs_built": extra.get("sweep_graphs", 0), "accepted_by_is_valid_and_stepped": extra.get("sweep_accepted", 0),
+                              "note": "all graphs with <= 3 nodes (self-loops for n <= 2; thorough: also n = 3) x attachment vectors; every graph the real is_valid accepts is stepped with NumPy and CasADi SX (plain execution)"},
          "functions_encoded": ["Network.is_valid (premise)", "Network.step", "all element get_*/step_dynamics", "engines.numpy primitives",
                                "engines.casadi Engine.to_function / _filter_vars / _gather_* / _add_flows_to_outputs (executed), level-0 IR (translated)"]})
     assumptions = ["overflow to +-inf for huge finite inputs is outside the claim (reals are unbounded)",
